@@ -19,7 +19,10 @@ def cfg(init=None, next_=None, spec=None, constants=None, invariants=(), propert
     if constants:
         lines.append("CONSTANTS")
         for k, v in constants.items():
-            lines.append("  %s = %s" % (k, v if isinstance(v, str) else tlc.tla(v)))
+            if isinstance(v, tuple) and v[0] == "<-":
+                lines.append("  %s <- %s" % (k, v[1]))
+            else:
+                lines.append("  %s = %s" % (k, v if isinstance(v, str) else tlc.tla(v)))
     for i in invariants:
         lines.append("INVARIANT " + i)
     for p in properties:
@@ -34,6 +37,13 @@ def cfg(init=None, next_=None, spec=None, constants=None, invariants=(), propert
         lines.append("POSTCONDITION " + postcondition)
     lines.append("CHECK_DEADLOCK " + ("TRUE" if deadlock else "FALSE"))
     return "\n".join(lines) + "\n"
+
+
+def mc_module(name, base, defs):
+    """A generated wrapper module: EXTENDS the machine and adds definitions (used for constants that a
+    cfg file cannot express, via  CONST <- Def)."""
+    body = "\n".join("%s == %s" % (k, v) for k, v in defs.items())
+    return "---- MODULE %s ----\nEXTENDS %s\n%s\n====\n" % (name, base, body)
 
 
 def validate_trace(ctx, module, events, constants=None, invariants=(), timeout=900, what="trace validation",
